@@ -105,6 +105,17 @@ CLAIMS = {
           'and on disagreement a direct numpy oracle decides. [partial] covariance is compared only where the 1/12 regularisation is inactive; kron, flux-fraction radii, windowed centroid, local background, perimeter, gini and eigen-derived shape columns are covered only by the locality / relabel / reorder oracles on the implementation.',
   'note': 'Trusted: Lean kernel + standard axioms; hand model tied by differential testing; sqrt and eigen-decomposition not modelled; float summation order (1e-10).',
  },
+ 'C14': {
+  'design_ref': 'DESIGN.md §5 C14',
+  'technique': 'Lean 4 theorems on a model of find_peaks (padded footprint maximum, mask/border/threshold conjunction, top-N) and of the star-finder selection layer + correspondence and brute-force oracle',
+  'text': 'Proved in Lean: a pixel is a candidate iff it equals the maximum of its padded footprint neighbourhood, is unmasked, outside the border strips and strictly above the threshold (mem_candidates_iff, isNbhdMax_iff); candidates come in raster order (candidates_sorted); '
+          'with the padding value not above any pixel - the minimum of the data, as the code now uses - pixels outside the image never decide, so negative maxima on the edge are found (edge_peaks_with_min_padding); a zero border width excludes nothing (border_zero_noop); '
+          'npeaks keeps min(n, #candidates) candidates, each at least as high as every dropped one, in decreasing order (topN_sub, topN_length, topN_dominates, over a total order on finite/infinite values); None iff no candidate (findPeaks_none_iff); '
+          'star finders: the returned rows are exactly the raw-catalogue rows that are finite and within the inclusive bounds, None iff none passes, brightest=N returns at most N (selectStars_spec, passes_iff, brightest_keeps_largest). '
+          'Tie: find_peaks on dyadic images (ties, plateaus, NaN/inf, negative regions, constant images; odd/even/rectangular boxes, random footprints, border widths incl. 0/asymmetric, masks, scalar/2-D thresholds, npeaks) compared with the model pixel-for-pixel and with a brute-force evaluation of the contract; '
+          'DAOStarFinder/IRAFStarFinder raw catalogues pushed through the Lean selection model and compared with find_stars. [partial] sharpness/roundness/marginal-fit numerics and the centroid-within-kernel clause are not modelled; StarFinder is probed only.',
+  'note': 'Trusted: Lean kernel + standard axioms; hand model tied by differential testing; order among exactly tied values at the npeaks cut is unspecified (numpy argsort) and compared as a multiset.',
+ },
 }
 
 _todo = 'check not built yet in this round (see DESIGN.md §10 build order); not claimed until its machinery is committed'
